@@ -3,7 +3,7 @@ from ..common import DRIVER
 from .. import corr
 
 def corpus_cases(prop, part):
-    return [["append 2", "busyappend", "reopen"], ["append 2 save", "saveretry", "reopen", "saveretry", "reopen"], ["append 1", "concappend 8 10", "reopen", "concappend 4 5", "reopen"], ["kill 1 0 1", "reopen"], ["kill 6 150 2", "reopen", "append 2 save", "kill 3 0 0", "reopen"]]
+    return [["append 2", "busyappend", "reopen"], ["append 1", "twohandles", "reopen", "appendnil", "reopen", "twohandles", "reopen"], ["append 2 save", "saveretry", "reopen", "saveretry", "reopen"], ["append 1", "concappend 8 10", "reopen", "concappend 4 5", "reopen"], ["kill 1 0 1", "reopen"], ["kill 6 150 2", "reopen", "append 2 save", "kill 3 0 0", "reopen"]]
 
 def out_kind(line):
     return line.split(" ", 1)[0]
@@ -22,7 +22,11 @@ def gen(rng, tier, n):
                 lines.append("append %d%s" % (rng.randint(1, 5), " save" if rng.random() < 0.5 else ""))
             elif x < 0.84:
                 lines.append("concappend %d %d" % (rng.choice([2, 4, 8]), rng.choice([3, 10])))   # one handle, concurrent appenders
+            elif x < 0.855:
+                lines.append("twohandles")     # a second handle opened and closed while the first keeps writing
             elif x < 0.87:
+                lines.append("appendnil")
+            elif x < 0.885:
                 lines.append("saveretry")      # a failed SaveOffset retried with the same offset must reach the database
             elif x < 0.92:
                 lines.append("busyappend")      # a second connection holds the write lock: Append must not acknowledge
